@@ -31,7 +31,9 @@ def _ctc(draw, names, feats):
         return draw(S.expr_of_depth(names, C04_LOGICAL, draw(st.integers(0, 4))))
 
     def ref():
-        return ["T", draw(st.sampled_from(names)) + "." + draw(st.sampled_from(ATTR_POOL))]
+        # the attribute part is now and then spelled like (another) feature of the model
+        attr = draw(st.sampled_from(names)) if draw(st.integers(0, 3)) == 0 else draw(st.sampled_from(ATTR_POOL))
+        return ["T", draw(st.sampled_from(names)) + "." + attr]
 
     def arith(d):
         c = draw(st.integers(0, 7))
